@@ -294,6 +294,7 @@ def run_shard(spec):
 TEXT = ("Held on every pair observed: ~2*10^5 (quick) / ~2.5*10^7 (thorough) ordered pairs of independently built "
         "refs (two managers) compared with the descriptor relation for ==, hash and dict/set membership, collision "
         "families up to 10^5 keys, and structurally identical expression pairs. All pairs WITHIN each sampled family "
-        "are covered; the families themselves are sampled.")
+        "are covered; the families themselves are sampled."
+        ' Plus families over POPULATED containers whose contents differ between the two managers and change between the two builds (what a path denotes does not depend on the data).')
 NOTE = "Trusted: the generator's descriptors (label + typed steps) as ground truth for 'same access path'."
 TECHNIQUE = "runtime monitoring: all-pairs differential oracle over independently constructed refs (equality, hash, dict/set behaviour) against generator-side path identity"
